@@ -132,6 +132,10 @@ def argv_of(ns, outdir, rng=None, spell=None):
                 f[0] = LONG[f[0]]
     if rng:
         rng.shuffle(flags)
+    if spell is not None:
+        # argparse's standard one-word spelling option=value (documented by argparse for every option with a value)
+        flags = [[f[0] + '=' + f[1]] if len(f) == 2 and not f[1].startswith('-') and spell.random() < 0.2 else f
+                 for f in flags]
     return [x for f in flags for x in f]
 
 
@@ -177,7 +181,7 @@ def run_generator(ns, seed=0, shuffle_flags_seed=None):
     """Generator(argv) in a scratch directory with the RNG recorded."""
     from matchingproblems.generator.generator import Generator
     base = tempfile.mkdtemp(prefix='gen_', dir=os.environ.get('VERIF_WORK') or C.WORKROOT)
-    outdir = os.path.join(base, 'out', 'instances')
+    outdir = os.path.join(base, 'Out', 'Instances_B')   # mixed case on purpose
     out = dict(code=None, exc=None, dir_created=False, files=[], log=[])
     precreated = (seed % 3 == 2)          # the output directory may already exist
     try:
@@ -191,7 +195,7 @@ def run_generator(ns, seed=0, shuffle_flags_seed=None):
                 out['leftovers'] = ['notes.txt', '%d.txt' % (ns.get('numinst', 1) + 3), 'README']
         rng = pyrandom.Random(shuffle_flags_seed) if shuffle_flags_seed is not None else None
         argv = argv_of(ns, outdir, rng, spell=pyrandom.Random(seed * 7 + 1))
-        out['argv'] = [a if a != outdir else '<out>' for a in argv]
+        out['argv'] = [a.replace(outdir, '<out>') for a in argv]
         with recorded_rng(seed) as log, contextlib.redirect_stderr(io.StringIO()):
             try:
                 Generator(argv)
@@ -205,7 +209,7 @@ def run_generator(ns, seed=0, shuffle_flags_seed=None):
                 out['code'] = 1
                 out['exc'] = [type(e).__name__, str(e)[:200]]
         out['log'] = log.log
-        out['dir_created'] = (os.path.exists(os.path.join(base, 'out')) and not precreated) or \
+        out['dir_created'] = (os.path.exists(os.path.join(base, 'Out')) and not precreated) or \
             (precreated and sorted(os.listdir(outdir)) != sorted(out.get('leftovers', [])))
         out['precreated'] = precreated
         if os.path.isdir(outdir):
